@@ -35,4 +35,6 @@ def run(check):
     from ..rules_escape import rule_retrieval_inside_window, rule_repr_robust
     check.run_rule('C07.R8', lambda c: rule_retrieval_inside_window(c, 'C07.R8'))
     check.run_rule('C07.R8b', lambda c: rule_repr_robust(c, 'C07.R8'))
+    from ..rules_visitor import rule_visit_nullable
+    check.run_rule('C07.R9', lambda c: rule_visit_nullable(c, 'C07.R9'))
     check.run_rule('C07.R5b', lambda c: rule_sphinx_unchanged_pair(c, 'C07.R5'))
